@@ -721,6 +721,10 @@ class List(list, base.Symbolic, pg_typing.CustomTyping):
     if self.max_size is not None and len(self) >= self.max_size:
       raise ValueError(f'List reached its max size {self.max_size}.')
 
+    # Same normalization as `list.insert`, so the update reports the position
+    # at which the value is stored.
+    if index < 0:
+      index = max(0, index + len(self))
     update = self._set_item_without_permission_check(
         index, mark_as_insertion(value))
     self._sync_children_paths()
